@@ -29,7 +29,7 @@ MECH = ["nutree.dot:node_to_dot", "nutree.dot:tree_to_dotfile", "nutree.mermaid:
 MIN_NONTRIVIAL = {"quick": 300, "thorough": 3000}
 EXHAUSTIVE = {"quick": True, "thorough": True}
 FLAVOURS = ["str", "int", "ids"]
-KINDS = ["k1", "k2", "enth\u00e4lt"]  # one kind with a non-ASCII character
+KINDS = ["k1", "k2", "enth\u00e4lt", "is {to_id} of", "{}", "50%s"]  # a non-ASCII kind; kinds that look like template fields
 
 
 def build(case):
@@ -45,8 +45,8 @@ def build(case):
         t = (X["XTypedTree"] if typed else X["XTree"])("TNAME")
     else:
         t = (TypedTree if typed else Tree)("TNAME")
-    kind = (lambda i: KINDS[rng.randrange(3)]) if typed else None
-    kinds = [KINDS[rng.randrange(3)] for _ in range(n)]
+    kind = (lambda i: KINDS[rng.randrange(len(KINDS))]) if typed else None
+    kinds = [KINDS[rng.randrange(len(KINDS))] for _ in range(n)]
     kind = (lambda i: kinds[i]) if typed else None
     fl = case["flavour"]
     if fl == "str":
